@@ -353,6 +353,25 @@ func checkC16(c *Ctx, w *World) {
 			}
 		}
 	}
+	// UpdateMultiEndpoints (and Close) are single critical sections: gme.mu is not released between the first and the last
+	// access to the routing tables (a gap lets Close, or a second update, interleave with a half-applied update)
+	for _, fn := range []*ssa.Function{g.upd, g.closeFn} {
+		var acc []ssa.Instruction
+		for _, a := range g.ai.ByFn[fn] {
+			if a.Field == "GCPMultiEndpoint.pools" || a.Field == "GCPMultiEndpoint.mes" || a.Field == "GCPMultiEndpoint.defaultName" {
+				acc = append(acc, a.Instr)
+			}
+		}
+		gap := ""
+		for _, a := range acc {
+			for _, b := range acc {
+				if a != b && mayPrecede(a, b) && !sameHoldOf(g.lf, "GCPMultiEndpoint.mu", a, b) {
+					gap = p.ipos(a) + " … " + p.ipos(b)
+				}
+			}
+		}
+		c.check(len(acc) > 0 && gap == "", "C16.atomic", fname(fn)+" is one critical section", p.pos(fn.Pos()), "gme.mu is never released between two accesses to pools / mes / defaultName", "gme.mu is released in the middle of the operation (between "+gap+"): Close or another update can run against a half-applied update — pools registered after Close returned, pools removed that the other update keeps")
+	}
 	c.check(okClose, "C16.close", "Close releases every pool", p.pos(g.closeFn.Pos()), "under gme.mu, every pool's monitor is stopped and its connection closed on every iteration path, on every path of Close", "Close can return without stopping every monitor and closing every pool")
 	// ownership: a successfully dialed connection is handed to the pool table (which Close and the failed-construction
 	// cleanup range over) before anything else can fail; a monitored connection is created nowhere else
